@@ -29,8 +29,9 @@ fn rrect(rng: &mut Rng, n: i32) -> R {
 
 struct Scene {
     svg: String,
-    /// per clip child: (its rect, optional rect of its own clip path)
-    children: Vec<(R, Option<R>)>,
+    /// per clip child: (its rect, optional rect of its own clip path, optional rect of the clip path of the `use`
+    /// that instantiates it)
+    children: Vec<(R, Option<R>, Option<R>)>,
     nested: Option<R>,
 }
 
@@ -41,14 +42,24 @@ fn scene(rng: &mut Rng, n: i32) -> Scene {
     let mut children = vec![];
     for i in 0..k {
         let r = rrect(rng, n);
-        if rng.chance(1, 2) {
-            let cr = rrect(rng, n);
-            defs += &format!(r#"<clipPath id="k{}">{}</clipPath>"#, i, cr.svg(""));
-            body += &r.svg(&format!(r#" clip-path="url(#k{})""#, i));
-            children.push((r, Some(cr)));
-        } else {
-            body += &r.svg("");
-            children.push((r, None));
+        match rng.below(5) {
+            0 | 1 => {
+                let cr = rrect(rng, n);
+                defs += &format!(r#"<clipPath id="k{}">{}</clipPath>"#, i, cr.svg(""));
+                body += &r.svg(&format!(r#" clip-path="url(#k{})""#, i));
+                children.push((r, Some(cr), None));
+            }
+            2 => {
+                // a clipped shape instantiated by a `use` that is clipped too: a clipped child inside a clipped child
+                let (cr, ur) = (rrect(rng, n), rrect(rng, n));
+                defs += &format!(r#"<clipPath id="k{i}">{}</clipPath><clipPath id="u{i}">{}</clipPath>{}"#, cr.svg(""), ur.svg(""), r.svg(&format!(r#" id="t{i}" clip-path="url(#k{i})""#)));
+                body += &format!(r##"<use xlink:href="#t{i}" clip-path="url(#u{i})"/>"##);
+                children.push((r, Some(cr), Some(ur)));
+            }
+            _ => {
+                body += &r.svg("");
+                children.push((r, None, None));
+            }
         }
     }
     let nested = if rng.chance(1, 3) { Some(rrect(rng, n)) } else { None };
@@ -60,7 +71,7 @@ fn scene(rng: &mut Rng, n: i32) -> Scene {
         None => String::new(),
     };
     let svg = format!(
-        r##"<svg xmlns="http://www.w3.org/2000/svg" width="{n}" height="{n}"><defs>{defs}<clipPath id="c"{nested_attr}>{body}</clipPath></defs><rect width="{n}" height="{n}" fill="#00ff00" clip-path="url(#c)"/></svg>"##
+        r##"<svg xmlns="http://www.w3.org/2000/svg" xmlns:xlink="http://www.w3.org/1999/xlink" width="{n}" height="{n}"><defs>{defs}<clipPath id="c"{nested_attr}>{body}</clipPath></defs><rect width="{n}" height="{n}" fill="#00ff00" clip-path="url(#c)"/></svg>"##
     );
     Scene { svg, children, nested }
 }
@@ -96,9 +107,10 @@ pub fn corr(tier: &str, seed: u64, c: &mut Corr) {
             let steps: Vec<String> = sc
                 .children
                 .iter()
-                .map(|(r, cr)| match cr {
-                    None => format!("p:{}", r.contains(px, py) as u8),
-                    Some(cr) => format!("g:{}:{}", r.contains(px, py) as u8, cr.contains(px, py) as u8),
+                .map(|(r, cr, ur)| match (cr, ur) {
+                    (None, _) => format!("p:{}", r.contains(px, py) as u8),
+                    (Some(cr), None) => format!("g:{}:{}", r.contains(px, py) as u8, cr.contains(px, py) as u8),
+                    (Some(cr), Some(ur)) => format!("n:{}:{}:{}", r.contains(px, py) as u8, cr.contains(px, py) as u8, ur.contains(px, py) as u8),
                 })
                 .collect();
             let a = pm.data()[((py * n + px) * 4 + 3) as usize];
@@ -156,8 +168,58 @@ fn shared_definitions(tier: &str, seed: u64, s: &mut Search) {
     }
 }
 
+/// clip structures every level of which covers the content: nothing may change.  Clipped children inside clipped
+/// children, a shared user-space clip path that links a bounding-box one (two users at different places), and an
+/// empty group next to the clipped shapes (it has no box and must not drag the bounding box to the origin)
+fn covering_structures(tier: &str, seed: u64, s: &mut Search) {
+    let mut rng = Rng::new(seed ^ 0x5EA7C15B);
+    let n = (if tier == "thorough" { 600 } else { 60 }) * budget_mult();
+    let o = crate::corpus::opts_for(None);
+    for i in 0..n {
+        let (w, h) = (120u32, 100u32);
+        let k = 2 + rng.below(2);
+        let mut shapes = String::new();
+        for j in 0..k {
+            let (x, y) = (rng.range(30, 80), rng.range(30, 60));
+            let (sw, sh) = (rng.range(8, 30), rng.range(8, 30));
+            let fill = *rng.pick(&["blue", "green", "#f80", "purple"]);
+            shapes += &match (i + j) % 2 {
+                0 => format!(r#"<rect CLIP x="{x}" y="{y}" width="{sw}" height="{sh}" fill="{fill}"/>"#),
+                _ => format!(r#"<g CLIP>EMPTY<circle cx="{}" cy="{}" r="{}" fill="{fill}"/></g>"#, x, y, sw / 2 + 2),
+            };
+        }
+        let (variant, def, empty) = match i % 3 {
+            0 => (
+                "nested-clipped-child",
+                r##"<clipPath id="k"><rect x="-50" y="-50" width="400" height="400"/></clipPath><clipPath id="u"><rect x="-60" y="-60" width="500" height="500"/></clipPath><rect id="t" x="-40" y="-40" width="300" height="300" clip-path="url(#k)"/><clipPath id="zs"><use xlink:href="#t" clip-path="url(#u)"/></clipPath>"##.to_string(),
+                "",
+            ),
+            1 => (
+                "user-space-clip-linking-a-bounding-box-clip",
+                r##"<clipPath id="bb" clipPathUnits="objectBoundingBox"><rect x="-0.2" y="-0.2" width="1.4" height="1.4"/></clipPath><clipPath id="zs" clip-path="url(#bb)"><rect x="-50" y="-50" width="400" height="400"/></clipPath>"##.to_string(),
+                "",
+            ),
+            _ => (
+                "empty-group-next-to-bounding-box-clipped-shapes",
+                r##"<clipPath id="zs" clipPathUnits="objectBoundingBox"><rect x="-0.2" y="-0.2" width="1.4" height="1.4"/></clipPath>"##.to_string(),
+                r#"<g id="e"/>"#,
+            ),
+        };
+        let hdr = format!(r#"<svg xmlns="http://www.w3.org/2000/svg" xmlns:xlink="http://www.w3.org/1999/xlink" width="{w}" height="{h}">"#);
+        let plain = format!("{hdr}{}</svg>", shapes.replace("CLIP ", "").replace(" CLIP", "").replace("EMPTY", empty));
+        let wrapped = format!("{hdr}<defs>{def}</defs>{}</svg>", shapes.replace("CLIP", r#"clip-path="url(#zs)""#).replace("EMPTY", empty));
+        let (Some(pa), Some(pb)) = (render(&plain, &o, w, h), render(&wrapped, &o, w, h)) else { continue };
+        s.case(&format!("covering-structure:{}", variant), &wrapped, true);
+        let (ok, why) = crate::rend::similar(&pa, &pb, 8);
+        if !ok {
+            s.finding(&format!("oracle:clip:covering-structure-changes-content:{}", variant), &format!("every clip path of the structure covers the content, yet the image changed: {}", why), &wrapped);
+        }
+    }
+}
+
 pub fn search(tier: &str, seed: u64, s: &mut Search) {
     shared_definitions(tier, seed, s);
+    covering_structures(tier, seed, s);
     let mut rng = Rng::new(seed ^ 0x5EA7C15);
     let n = (if tier == "thorough" { 3000 } else { 300 }) * budget_mult();
     let o = crate::corpus::opts_for(None);
